@@ -10,7 +10,7 @@
                                 acknowledged tasks of w) on the coordinator queue
       quiescent s               nothing left to perform (every Coord / Work step is a no-op)          *)
 From Coq Require Import List Arith Bool.
-From C49 Require Import Model Proofs Inv Acct Quit Final.
+From C49 Require Import Model Proofs Inv Acct Quit Final Wrapper.
 Import ListNotations.
 
 (** every task submitted before quit runs exactly once, unless no worker could ever be created.
@@ -91,3 +91,28 @@ Theorem submissions_after_quit_refused : forall s ls l,
   step (fst (run s ls)) l = (fst (run s ls), [ERefused]).
 Proof. intros s ls l H Hl. apply client_refused; [apply run_tquit_mono, H | exact Hl]. Qed.
 Print Assumptions submissions_after_quit_refused.
+
+(** a growth request (grow / startAWorker / adjustPoolsize / start) served while tasks wait in the backlog and the
+    limit allows one more worker creates that worker and hands it the oldest waiting task in the same coordinator
+    job -- whatever deferred shrink is outstanding.  (By [workers_not_released_while_tasks_wait] the idle set is
+    empty whenever the backlog is not.) *)
+Theorem growth_serves_the_backlog : forall n s ch t p,
+  pending s = t :: p -> idle s = [] -> length (idle s) + busy s < limit s ->
+  exists rest, snd (run_job s (CGrow (S n)) ch)
+               = ECreate (nworkers s) (length (idle s) + busy s) (limit s) :: EDo (nworkers s) t :: rest.
+Proof.
+  intros n s ch t p Hp Hi Hl. destruct (grow_serves_backlog n s ch t p Hp Hi Hl) as [rest H]. exists rest.
+  unfold run_job. destruct (grow_loop (S n) s ch) as [[s1 c1] es]. exact H.
+Qed.
+Print Assumptions growth_serves_the_backlog.
+
+(** the reporting wrapper of ThreadPool.callInThreadWithCallback: the task body runs once and onResult is invoked
+    exactly once, with the task's own outcome, whatever the callback does (returns, raises on success, raises on
+    failure, raises always); without a callback nothing is reported *)
+Theorem callback_reported_exactly_once_with_task_outcome : forall h cb,
+  body_runs (in_context h cb) = 1
+  /\ (cb <> NoCb -> reports (in_context h cb) = [task_outcome h])
+  /\ (cb = NoCb -> reports (in_context h cb) = [])
+  /\ (escapes (in_context h cb) = true -> cb <> NoCb /\ cb_raises cb (task_outcome h) = true).
+Proof. exact one_report. Qed.
+Print Assumptions callback_reported_exactly_once_with_task_outcome.
